@@ -99,6 +99,7 @@ pub fn validate(b: &[u8]) -> Result<VSummary, String> {
     let mut pending_fctl: Option<(u32, u32)> = None; // an fcTL whose data has not started
     let mut in_fdat = false;
     let mut iend = false;
+    let mut once: Vec<[u8; 4]> = vec![];
     for (i, c) in chunks.iter().enumerate().skip(1) {
         if iend {
             return Err("chunk after IEND".into());
@@ -213,6 +214,28 @@ pub fn validate(b: &[u8]) -> Result<VSummary, String> {
                 iend = true;
                 kinds.push("IEND".into());
             }
+            b"cHRM" | b"gAMA" | b"iCCP" | b"sBIT" | b"sRGB" | b"cICP" | b"mDCV" | b"cLLI" => {
+                // colour-space information: once, before PLTE and IDAT
+                if once.contains(&c.ty) { return Err(format!("{} more than once", name)); }
+                once.push(c.ty);
+                if plte || seen_idat { return Err(format!("{} after PLTE/IDAT", name)); }
+            }
+            b"bKGD" | b"hIST" | b"tRNS" => {
+                // once, after PLTE (when there is one - mandatory for indexed images), before IDAT
+                if once.contains(&c.ty) { return Err(format!("{} more than once", name)); }
+                once.push(c.ty);
+                if seen_idat { return Err(format!("{} after IDAT", name)); }
+                if color == 3 && !plte { return Err(format!("{} before PLTE", name)); }
+            }
+            b"pHYs" => {
+                if once.contains(&c.ty) { return Err(format!("{} more than once", name)); }
+                once.push(c.ty);
+                if seen_idat { return Err(format!("{} after IDAT", name)); }
+            }
+            b"eXIf" => {
+                if once.contains(&c.ty) { return Err(format!("{} more than once", name)); }
+                once.push(c.ty);
+            }
             _ => {
                 if c.ty[0] & 0x20 == 0 {
                     return Err(format!("unknown critical chunk {}", name));
@@ -220,6 +243,7 @@ pub fn validate(b: &[u8]) -> Result<VSummary, String> {
             }
         }
     }
+    // (a PLTE chunk behind one of the "before PLTE" chunks is found by the rule above when it is reached; the reverse order is checked here)
     if !iend {
         return Err("no IEND".into());
     }
